@@ -75,7 +75,7 @@ func VH_C07_Dispatch() {
 	n := 2 + choose(3)
 	ext := vsymstr(n, "sSrRtTaAlLmMvV")
 	name := vtmpdir() + "/file.name." + ext // engine: "dir.d"; native run: a fresh temporary directory with a dot in its name
-	vtouch(name)                             // native run: the file exists and is empty (engine: os.Open is the provider below)
+	vtouch(name)                            // native run: the file exists and is empty (engine: os.Open is the provider below)
 	vstubFail = false
 	vttmlDoc = nil
 	vtsData, vtsPos = nil, 0
@@ -154,7 +154,7 @@ func vc07Source(src int, s1, s2 int64) (*Subtitles, error) {
 func VH_C07_Convert() {
 	vmode("int")
 	src := choose(6)
-	dst := choose(5) // srt, vtt, ssa, stl, ttml
+	dst := choose(5)                                             // srt, vtt, ssa, stl, ttml
 	s1, s2 := []int64{3, 7}[choose(2)], []int64{0, 9}[choose(2)] // concrete boundaries: the timestamp arithmetic itself is C16/C01/C02/C04/C05
 	s, err := vc07Source(src, s1, s2)
 	vassert(err == nil && len(s.Items) == 2, "C07 source document readable")
